@@ -216,7 +216,18 @@ let handle cmd =
       else
         c_dtw_warping_paths_ndim_euclidean shift ub_abs ub_abs wps0 f1 zl1 f2 zl2 return_dtw keep_int_repr psi_neg znd length
           ldiff ldiffr ldiffc window width ri1 ri2 ri3 p_max_step p_max_dist p_penalty only_ub p1b p1e p2b p2e use_pruning in
+    (* optionally: a block of the full matrix expanded from that compact array by the regenerated dtw_expand_wps_slice
+       (Gen_cexpw.v) into a block pre-filled with 555 *)
+    let nsl = nint () in
+    let slices = rd_list nsl (fun () -> let rb = nint () in let re = nint () in let cb = nint () in let ce = nint () in (rb, re, cb, ce)) in
+    let exps = List.map (fun (rb, re, cb, ce) ->
+      let flen = z_of_int ((re - rb) * (ce - cb)) in
+      let full0 = List.init ((re - rb) * (ce - cb)) (fun _ -> Fin (z_of_int 555)) in
+      let ((_, full), ok2) = c_dtw_expand_wps_slice wps full0 zl1 zl2 (z_of_int rb) (z_of_int re) (z_of_int cb) (z_of_int ce)
+                               flen length ldiff ldiffc window width ri1 ri2 ri3 in
+      " | " ^ str_row full ^ (if ok2 then " | ok" else " | OUT-OF-BOUNDS")) slices in
     (match r with RSqrt v -> "sqrt " ^ str_cost v | RPlain v -> "plain " ^ str_cost v) ^ " | " ^ str_row wps ^ (if ok then " | ok" else " | OUT-OF-BOUNDS")
+    ^ String.concat "" exps
   | "ced" ->
     (* the Euclidean routines of dd_ed.c as regenerated (Gen_ced.v) *)
     let variant = nint () in let nd = nint () in
